@@ -398,6 +398,14 @@ func TestVerifC08(t *testing.T) {
 			// a creation in progress while the permission is withdrawn
 			add(true, hdJoinOp(1, 1, 1), hdJoinOp(2, 1, 2), incall, offer(1, "video", 3), perms(1, 4), hdOp{K: "mcudone", Res: "ok"})
 			add(true, hdJoinOp(1, 1, 1), hdJoinOp(2, 1, 2), incall, offer(1, "screen", 0), perms(1, 3), hdOp{K: "mcudone", Res: "ok"})
+			// sections with port 0 need the permission like any other
+			add(false, joinP(1, 1, 1, 0), hdJoinOp(2, 1, 2), incall, offer(1, "video", 1+16), offer(1, "video", 8), offer(1, "video", 16), offer(1, "video", 2+8),
+				perms(1, 1), offer(1, "video", 1+16), offer(1, "video", 16), offer(1, "video", 8))
+			// screen permission withdrawn while media stays
+			add(false, joinP(1, 1, 1, 3, 2), hdJoinOp(2, 1, 2), incall, offer(1, "video", 3), offer(1, "screen", 0), perms(1, 3), offer(1, "screen", 0), perms(1, 2), perms(1))
+			// an internal client in ANOTHER room publishes: its stream cannot be requested from here
+			add(false, hdOp{K: "connect", C: 3}, hdOp{K: "hello", C: 3, Ht: "internal", B: 0}, hdJoinOp(3, 2, 0), hdJoinOp(1, 1, 1), hdJoinOp(2, 1, 2), incall,
+				hdOp{K: "api", B: 0, SignAs: 0, R: 2, Api: "incallall", InCall: 7}, offer(3, "video", 3), req(1, 3, "video"), hdJoinOp(3, 1, 0), req(1, 3, "video"))
 			// requesting a stream: same room and both in the call, in every combination
 			add(false, hdJoinOp(1, 1, 1), hdJoinOp(2, 2, 2), offer(1, "video", 3), req(2, 1, "video"), hdJoinOp(2, 1, 2), req(2, 1, "video"), incall, req(2, 1, "video"),
 				hdOp{K: "api", B: 0, SignAs: 0, R: 1, Api: "incall", RawRS: true, Users: []hdApiUser{{RS: 2, InCall: 0}}}, req(2, 1, "screen"),
@@ -452,6 +460,9 @@ func TestVerifC09(t *testing.T) {
 			// failing creations, and the owner gone for good
 			add(offer(1, "video"), hdOp{K: "mcudone", Res: "fail"}, offer(1, "video"), done)
 			add(offer(1, "video"), hdOp{K: "drop", C: 2}, hdOp{K: "tick", O: 40}, done)
+			// objects of a session that is in no room (created before joining / after leaving) go with the session
+			add(offer(1, "video"), done, hdJoinOp(1, 0, 0), offer(1, "video"), done, hdOp{K: "bye", C: 1})
+			add(offer(1, "video"), done, hdJoinOp(1, 0, 0), offer(1, "screen"), done, hdOp{K: "drop", C: 1}, hdOp{K: "tick", O: 40})
 			// two creations in flight for one stream of one session: the later one is closed again, the first stays
 			// (and is closed when its owner leaves)
 			add(offer(1, "video"), done, req(2, 1, "video"), req(2, 1, "video"), done, done, req(2, 1, "video"), leaveCall(2))
